@@ -126,7 +126,10 @@ func wfRangeReq(o *ObjectRangeRequest) bool {
 //@ func (*chunkedReader).Read
 //@ props C12 C09
 //@ requires          wf:     r != nil && r.inner != nil
+//@ assume            fin:    rd_pos(r.inner) <= rd_len(r.inner) because request bodies are finite streams and a cursor never passes the end
 //@ loop 1 invariant  fill:   0 <= n && 0 <= sizeToRead && n + sizeToRead == len(p)
+//@ loop 1 invariant  fin:    rd_pos(r.inner) <= rd_len(r.inner)
+//@ loop 1 decreases [C09] progress: rd_len(r.inner) - rd_pos(r.inner)
 //@ loop 1 step [C12] track:  imp(old(r.chunkRemain) > 0, r.chunkRemain + n == old(r.chunkRemain) + old(n))
 //@ loop 1 step [C12] data:   imp(old(r.chunkRemain) > 0,
 //@                             rd_pos(r.inner) == old(rd_pos(r.inner)) + (n - old(n)) &&
